@@ -82,7 +82,7 @@ def run(ctx):
               '(1-4 links) at seeded q in [-1.2,1.2], unit root quaternions, random qd; q always, qd for free and '
               'single-hinge links; spring/positional reported q = inverse image of reported x after a step. '
               'non-trivial = a stack with more than one joint or a left-handed triad.')
-  ctx.assumptions = ['oracle of the round trip is the identity map; tolerance 1e-8 on q, quaternions up to sign',
+  ctx.assumptions = ['oracle of the round trip is the identity map; tolerance 1e-7 on q (the inverse reads angles through arccos / arcsin, whose conditioning at an angle of exactly 0 costs sqrt(machine epsilon) = 1.5e-8 in float64), quaternions up to sign',
                      'velocity round trip of prismatic / stacked joints is the documented upstream limitation (tracked)']
   os.makedirs(tlc.WORK, exist_ok=True)
   cfg = os.path.join(tlc.WORK, 'c08-frame.cfg')
@@ -148,19 +148,19 @@ def run(ctx):
     bad = None
     for li, l in enumerate(m['links']):
       if l['root'] == 'free':
-        if np.max(np.abs(qa[qi:qi + 3] - q2[qi:qi + 3])) > 1e-8 or c01_qdiff(qa[qi + 3:qi + 7], q2[qi + 3:qi + 7]) > 1e-8:
+        if np.max(np.abs(qa[qi:qi + 3] - q2[qi:qi + 3])) > 1e-7 or c01_qdiff(qa[qi + 3:qi + 7], q2[qi + 3:qi + 7]) > 1e-7:
           bad = bad or ('q', f'free link {li + 1}: {q2[qi:qi + 7].tolist()} != {qa[qi:qi + 7].tolist()}')
-        if np.max(np.abs(qd0[di:di + 6] - qd2[di:di + 6])) > 1e-8:
+        if np.max(np.abs(qd0[di:di + 6] - qd2[di:di + 6])) > 1e-7:
           bad = bad or ('qd', f'free link {li + 1}: qd {qd2[di:di + 6].tolist()} != {qd0[di:di + 6].tolist()}')
         qi += 7
         di += 6
       else:
         n = len(l['stack'])
-        if np.max(np.abs(qa[qi:qi + n] - q2[qi:qi + n])) > 1e-8:
+        if np.max(np.abs(qa[qi:qi + n] - q2[qi:qi + n])) > 1e-7:
           bad = bad or ('q', f'link {li + 1} ({"".join(j["kind"] for j in l["stack"])}, triad {l["axisset"]}): q '
                              f'{q2[qi:qi + n].tolist()} != {qa[qi:qi + n].tolist()}')
         single_hinge = n == 1 and l['stack'][0]['kind'] == 'H'
-        if np.max(np.abs(qd0[di:di + n] - qd2[di:di + n])) > 1e-8:
+        if np.max(np.abs(qd0[di:di + n] - qd2[di:di + n])) > 1e-7:
           if single_hinge and all(render.fr(x) == 0 for x in l['anchor']) and vel_class_parent(m, li):
             bad = bad or ('qd', f'single-hinge link {li + 1}: qd {qd2[di:di + n].tolist()} != {qd0[di:di + n].tolist()}')
           else:
@@ -177,11 +177,11 @@ def run(ctx):
       n = 7 if l['root'] == 'free' else len(l['stack'])
       d = max(np.max(np.abs(q2[qi:qi + 3] - q3[qi:qi + 3])), c01_qdiff(q2[qi + 3:qi + 7], q3[qi + 3:qi + 7])) if l['root'] == 'free' \
           else np.max(np.abs(q2[qi:qi + n] - q3[qi:qi + n]))
-      if d > 1e-8:
+      if d > 1e-7:
         bad = ('q', f'link {li + 1}: q {q3[qi:qi + n].tolist()} from the poses with alternating quaternion signs, {q2[qi:qi + n].tolist()} from the poses as emitted')
         break
       qi += n
-    if bad is None and np.max(np.abs(qd2 - qd3)) > 1e-8:
+    if bad is None and np.max(np.abs(qd2 - qd3)) > 1e-7:
       bad = ('qd', f'qd {qd3.tolist()} from the poses with alternating quaternion signs, {qd2.tolist()} from the poses as emitted')
     if bad:
       ctx.violation(f'inverse image depends on the quaternion representative: {bad[1]}', info, {'call': 'kinematics', 'predicate': 'representative_' + bad[0]})
